@@ -4,7 +4,7 @@
 #   suite passes with the change; demo fails with it and passes without it.
 # On success stores it as /verif/seeded/<id>-<n>/{patch.diff,demo_test.go,meta.json}.
 export GOFLAGS=-mod=mod GOPROXY=off GOSUMDB=off GOTOOLCHAIN=local
-D="$1"; N="$2"; ID="$3"
+D="$1"; N="$2"; ID="$3"; ON="${4:-$2}"
 P="$D/patch$N.diff"; DEMO="$D/demo${N}_test.go"
 [ -f "$P" ] && [ -f "$DEMO" ] || { echo "missing $P or $DEMO"; exit 3; }
 PKG=url
@@ -20,11 +20,11 @@ cp "$DEMO" "$T/mut/$PKG/zz_demo_test.go"; cp "$DEMO" "$T/clean/$PKG/zz_demo_test
 RACE=""; grep -q "race" "$D/notes.md" 2>/dev/null && [ "$ID" = "C14" ] && RACE="-race"
 ( cd "$T/mut" && go test $RACE -vet=off -count=1 -run "TestSeeded${ID}_$N" ./$PKG/ > "$T/demo_mut.log" 2>&1 ) && DM=pass || DM=FAIL
 ( cd "$T/clean" && go test $RACE -vet=off -count=1 -run "TestSeeded${ID}_$N" ./$PKG/ > "$T/demo_clean.log" 2>&1 ) && DC=pass || DC=FAIL
-echo "SEED $ID-$N suite_with_change=$SUITE demo_with_change=$DM demo_clean=$DC pkg=$PKG race=$RACE"
+echo "SEED $ID-$ON suite_with_change=$SUITE demo_with_change=$DM demo_clean=$DC pkg=$PKG race=$RACE"
 if [ "$SUITE" = pass ] && [ "$DM" = FAIL ] && [ "$DC" = pass ]; then
-  O=/verif/seeded/$ID-$N; mkdir -p "$O"
+  O=/verif/seeded/$ID-$ON; mkdir -p "$O"
   cp "$P" "$O/patch.diff"; cp "$DEMO" "$O/demo_test.go"
-  python3 - "$O" "$ID" "$N" "$PKG" "$RACE" "$D/notes.md" <<'PY'
+  python3 - "$O" "$ID" "$ON" "$PKG" "$RACE" "$D/notes.md" <<'PY'
 import json,sys,re
 o,pid,n,pkg,race,notes=sys.argv[1:7]
 txt=open(notes).read() if notes else ''
